@@ -827,9 +827,18 @@ func extMaphashWrite(fr *frame, args []value) value {
 		seq = i.seqOf(args[1])
 	}
 	for _, c := range seq {
-		s.h = i.b.UF("mh_step", SBV64, s.h, c)
+		if i.ex.hashUF && i.ex.job.Concrete == nil {
+			s.h = i.b.UF("mh_step", SBV64, s.h, c)
+		} else {
+			// FNV-1a step: a concrete, injective-per-byte mixing function
+			s.h = i.b.Bin(OMul, i.b.Bin(OBXor, s.h, i.b.ZExt(c, SBV64)), i.b.BV(SBV64, 0x100000001b3))
+		}
 	}
-	i.ex.run.noteStub("hash/maphash: Sum64 is an uninterpreted function of the bytes written")
+	if i.ex.hashUF {
+		i.ex.run.noteStub("hash/maphash: Sum64 is an uninterpreted function of the bytes written (collisions explored)")
+	} else {
+		i.ex.run.noteStub("hash/maphash: Sum64 is modelled by FNV-1a over the bytes written")
+	}
 	if _, ok := args[1].(*Term); ok {
 		return iface{}
 	}
